@@ -160,7 +160,7 @@ impl ast::Visit for Visitor<'_, '_> {
 
             ast::StmtKind::CallSub { .. } => unimplemented!("need to check arg types against signature"),
 
-            ast::StmtKind::Block { .. } => {},
+            ast::StmtKind::Block { .. } => ast::walk_stmt(self, stmt),
             ast::StmtKind::InterruptLabel { .. } => {},
             ast::StmtKind::AbsTimeLabel { .. } => {},
             ast::StmtKind::RelTimeLabel { .. } => {},
